@@ -26,6 +26,10 @@ HC_B == {<<1,1,0,1,0>>, <<1,3,2,1,0>>, <<1,2,1,1,1>>, <<3,1,3,0,0>>, <<3,1,2,0,0
 PX_none == <<>>
 PX_D == << <<1,1,0,1,0>>, <<1,2,2,1,0>>, <<1,3,2,2,0>>, <<2,1,3,0,0>> >>
 HC_D == {<<1,4,1,3,1>>, <<1,4,1,1,1>>, <<4,1,0,0,0>>, <<2,4,2,1,0>>, <<4,4,0,0,0>>}
+\* E (after PX_E = three lineages: 1@0 | 2@1 | 3@0 -> 4@1): join / split lineages so that ids disappear and
+\*    re-appear through undo, then allocate fresh ones
+PX_E == << <<1,1,0,1,0>>, <<1,2,1,2,0>>, <<1,3,0,3,0>>, <<1,4,1,3,0>> >>
+HC_E == {<<2,1,2,0,0>>, <<3,3,4,0,0>>, <<3,1,2,0,0>>, <<2,3,2,1,0>>, <<4,3,0,0,0>>}
 HC_C == {<<1,1,0,1,0>>, <<1,2,1,1,0>>, <<1,3,1,1,0>>, <<2,1,3,0,0>>, <<1,3,2,1,1>>, <<4,1,0,0,0>>, <<3,1,2,0,0>>}
 
 DefaultAct == IF HasSeg THEN {"tid", "lid", "pos", "area"} ELSE {"tid", "lid"}
